@@ -519,6 +519,22 @@ func c01EdgeRejectsU(p *core.Program, env an.PEnv, from, to *ssa.BasicBlock, fk 
 	reach := an.PReach(to, env, nil)
 	for b := range reach {
 		if ret, isRet := b.Instrs[len(b.Instrs)-1].(*ssa.Return); isRet {
+			// a return that merges several verdicts in a phi of its own block (the returns of an inlined helper):
+			// only the edges from blocks that are reachable in this context count
+			if fk.Result < len(ret.Results) {
+				if phi, isPhi := ret.Results[fk.Result].(*ssa.Phi); isPhi && phi.Block() == b {
+					acc := false
+					for i, pr := range b.Preds {
+						if (reach[pr] || pr == from) && !an.IsFailureValue(phi.Edges[i], fk) {
+							acc = true
+						}
+					}
+					if acc {
+						return false, why
+					}
+					continue
+				}
+			}
 			if an.AcceptingReturnPossible(ret, fk) {
 				return false, why
 			}
